@@ -105,6 +105,11 @@ def gen_case(run_seed: int, tier: str) -> dict[str, Any]:
         tree["link.md"] = {"l": docs[0]}
     if w.random() < 0.12:
         tree["hard.md"] = {"hl": docs[0]}  # second name of the same inode
+    envr = sub_rng(run_seed, "environment")
+    low_disk = envr.random() < 0.08
+    if envr.random() < 0.15:
+        # modification times far in the past / in the future (mtime-based shortcuts)
+        tree[docs[0]] = dict(tree[docs[0]], mtime=envr.choice([946684800, 4102444800, 1]))
     ident = sub_rng(run_seed, "identity")
     euid = ident.choice([None] * 5 + [0, 1000, 65534])
     if euid is not None and ident.random() < 0.6:
@@ -171,6 +176,7 @@ def gen_case(run_seed: int, tier: str) -> dict[str, Any]:
         "backup": backup,
         "uid_seed": k.getrandbits(32),
         "euid": euid,
+        "low_disk": low_disk,
         "sweep_seed": k.getrandbits(32),
         # some workloads start from files that are already formatted for this very invocation
         # (the "nothing to change" path of an implementation is a path too)
@@ -474,6 +480,8 @@ def run_case(env: Env, case: dict[str, Any], want_trace: bool = False) -> dict[s
 def _exec_once(case: dict[str, Any], scratch: str, faults: list[dict[str, Any]], knobs: dict[str, Any], new: dict[str, bytes | None] | None) -> tuple[Exec, simproc.ProcResult]:
     if case.get("euid") is not None:
         knobs = dict(knobs, euid=case["euid"])
+    if case.get("low_disk"):
+        knobs = dict(knobs, low_disk=True)
     ex = Exec(case, os.path.join(scratch, "t"), faults, knobs, new)
     res = ex.run()
     return ex, res
